@@ -244,6 +244,34 @@ class _PlainAssign(ast.NodeTransformer):
         return n
 
 
+    # calls whose parameter order the library's abstract base classes fix: keyword arguments that name the next positional
+    # parameter are read as positional (`schedule(a, state=s)` = `schedule(a, s)`; `subscribe(on_error=f)` = `subscribe(None, f)`)
+    _SIG = {"subscribe": (["on_next", "on_error", "on_completed"], True), "schedule": (["action", "state"], False),
+            "schedule_relative": (["duetime", "action", "state"], False), "schedule_absolute": (["duetime", "action", "state"], False),
+            "schedule_periodic": (["period", "action", "state"], False)}
+
+    def visit_Call(self, n: ast.Call):
+        self.generic_visit(n)
+        if isinstance(n.func, ast.Attribute) and n.func.attr in self._SIG and n.keywords \
+                and not any(isinstance(a, ast.Starred) for a in n.args) and not any(k.arg is None for k in n.keywords):
+            sig, fill = self._SIG[n.func.attr]
+            kw = {k.arg: k for k in n.keywords}
+            args = list(n.args)
+            last = max([i for i, nm in enumerate(sig) if nm in kw] + [-1])
+            for i in range(len(args), last + 1):
+                nm = sig[i]
+                if nm in kw:
+                    args.append(kw.pop(nm).value)
+                elif fill:
+                    args.append(ast.copy_location(ast.Constant(None), n))
+                else:
+                    break
+            if len(args) != len(n.args):
+                n.args = args
+                n.keywords = [k for k in n.keywords if k.arg in kw]
+        return n
+
+
 class Module:
     def __init__(self, path: str, rel: str, modname: str, src: str):
         self.path = path
